@@ -153,6 +153,9 @@ pub fn shard(ctx: &Ctx, spec: &Spec) -> Shard {
         if cfg.dump_permits.is_some() {
             sh.add("histories_concurrent_blob_loading_at_init", 1);
         }
+        if ops.iter().any(|o| matches!(o, Op::Put { ts, .. } | Op::Del { ts, .. } if *ts >= 1 << 31)) {
+            sh.add("histories_extreme_timestamps", 1);
+        }
         sh.add(if cfg.allow_dup { "histories_dup_allowed" } else { "histories_dup_disallowed" }, 1);
         judge(&mut sh, ctx, spec.property, &spec.owned, &out, replay_json(spec.check_name, &cfg, hid, &ops, spec.surface));
     }
